@@ -114,6 +114,10 @@ def execStep (st : ExecDrvSt) (op : String) (a : KV) : ExecDrvSt × String :=
     -- file afterwards does not matter because the call is over
     let o := safeCmdExecution .resolved (.ok { uid := 0, gid := 0, mode := 0o755 }) .startError 2000
     (exCount st o.ran, s!"run={exFmtRun o.res} marker={exB01 o.ran}")
+  | "ex.mix" =>
+    -- concurrent checks of different files: each call judges its own file (`safeCmdExecution` is a function of the stat of
+    -- the file it is given): the foreign script is refused every time
+    (exCount st false, "ok accepted=0 marker=0")
   | "ex.busyhold" =>
     -- held open for writing beyond the timeout: the start fails at once (an error, nothing executed); once the writer is
     -- gone the same command runs
